@@ -258,9 +258,11 @@ fn ep_pkgdb(b: &[u8]) {
     let root = base.join(format!("replay-db-{}", std::process::id()));
     let _ = std::fs::remove_dir_all(&root);
     if let Some(mask) = s.strip_prefix("pkgdb layout mask ").and_then(|m| m.trim().parse::<u32>().ok()) {
-        if build_db(&root, mask).is_ok() {
-            walk_db(&root);
+        if build_db(&root, mask).is_err() {
+            mc_core::run::machinery_fault("cannot build the scratch package database");
         }
+        open_and_walk(&root);
+        let _ = std::fs::remove_dir_all(root.with_extension("linked-target"));
     } else if let Some(n) = s.strip_prefix("pkgdb with ").and_then(|m| m.split(' ').next()).and_then(|m| m.parse::<usize>().ok()) {
         if std::fs::create_dir_all(root.join("pkg-1.0")).is_ok() {
             for f in ["+COMMENT", "+CONTENTS", "+DESC"] {
@@ -939,6 +941,14 @@ fn check_db_many_strays(t: &mut Tally, scratch: &Path, n: usize) {
     }
 }
 
+/// What one layout is put through (the exploration and the replay of a recorded layout alike).
+fn open_and_walk(root: &Path) {
+    walk_db(root);
+    // a database path that is a plain file, and one that does not exist
+    let _ = PkgDB::open(&root.join("plainfile-1")).map(|db| db.count());
+    let _ = PkgDB::open(&root.join("does-not-exist")).map(|db| db.count());
+}
+
 fn check_db(t: &mut Tally, scratch: &Path, mask: u32) {
     t.evals += 1;
     t.validated += 1;
@@ -948,12 +958,7 @@ fn check_db(t: &mut Tally, scratch: &Path, mask: u32) {
         mc_core::run::machinery_fault("cannot build the scratch package database");
     }
     journal(&format!("I {} {}\n", ep_index("pkgdb"), hex(format!("pkgdb layout mask {}", mask).as_bytes())));
-    let r = watched(&format!("pkgdb layout mask {}", mask), 2000, || {
-        walk_db(&root);
-        // a database path that is a plain file, and one that does not exist
-        let _ = PkgDB::open(&root.join("plainfile-1")).map(|db| db.count());
-        let _ = PkgDB::open(&root.join("does-not-exist")).map(|db| db.count());
-    });
+    let r = watched(&format!("pkgdb layout mask {}", mask), 2000, || open_and_walk(&root));
     let _ = std::fs::remove_dir_all(&root);
     let _ = std::fs::remove_dir_all(root.with_extension("linked-target"));
     match r {
@@ -1136,7 +1141,8 @@ fn run_item(p: &Plan, idx: usize, t: &mut Tally, scratch: &Path) {
             check_db_many_strays(t, scratch, *n);
         }
         Item::Pkgdb { lo, hi } => {
-            for m in (*lo..*hi).filter(|m| *m < 512 || m % 8 == (m >> 9) % 8) {
+            // without a link shape every subset of the plain shapes; with link shapes every eighth
+            for m in (*lo..*hi).filter(|m| (m >> 9) & 7 == 0 || m % 8 == (m >> 9) % 8) {
                 t.states += 1;
                 t.transitions += 1;
                 check_db(t, scratch, m);
@@ -1398,8 +1404,8 @@ fn main() {
          names, one per shape, from the repository's fixtures) every prefix, every single-byte \
          deletion, every substitution from a 12-byte palette, every line duplication and every \
          two-cut splice; (iii) every digit run replaced by 19/20/40-digit runs and every token \
-         repeated 10^5 times (2*10^4 in the quick tier); (iv) package-database layouts \
-         over 15 directory shapes (all 512 subsets of the nine plain shapes; each combination of the three link shapes with 64 of them; the same again with a named pipe, with a mandatory entry that is a symbolic link to itself, and with one whose target runs through a regular file), and databases holding 4 000 / 30 000 (thorough: 200 000) stray files next to one package. Every call under catch_unwind with a watchdog (2 s, 10 s for \
+         repeated 10^5 times (2*10^4 in the quick tier); (iv) 4 800 package-database layouts \
+         over 15 directory shapes (all 512 subsets of the nine plain shapes, and each combination of the three link shapes with 64 of them; the same again with a named pipe, with a mandatory entry that is a symbolic link to itself, with one whose target runs through a regular file, and with both), and databases holding 4 000 / 30 000 (thorough: 200 000) stray files next to one package. Every call under catch_unwind with a watchdog (2 s, 10 s for \
          the long inputs), in a child process so that aborts are observed. Non-trivial = inputs \
          that are mutations, long, or contain NUL / bytes >= 0x80. Summary call sequences are \
          covered by C07's graph (every accessor in every reached state).",
